@@ -166,6 +166,12 @@ class Validation(object):
         if self.obj.format().name == "property":
             return
 
+        # The Properties of a validated Section are not covered
+        # by the iteration over its subsections.
+        if self.obj.format().name == "section":
+            for prop in self.obj.properties:
+                self.validate(prop)
+
         for sec in self.obj.itersections(recursive=True):
             self.validate(sec)
             for prop in sec.properties:
